@@ -1,4 +1,190 @@
-import FuModel.Xargs.Opts
+import FuModel.Proofs.XargsReplace
+
+/-!
+C20: replace mode (`-I R`, `-i`, `--replace`).  One command per input line, R replaced by
+the whole line in every initial argument, empty input runs nothing, and the rule that
+decides between `-n`, `-L` and the replace options (the last one wins, except that a
+replace option together with `-n 1` and no `-L` is no conflict).
+-/
 namespace FuModel.Xargs
-theorem C20_placeholder : (normalize [.replI [95], .n 1]).replace = some [95] := by decide
+
+/-- Why `C20_one_run_per_line` needs its hypothesis `hr`: for an arbitrary configuration with
+    `-r` off and no input line at all the main loop still runs the command once (with no appended
+    argument), so `batches = [[]]`, not `[]`.  Replace mode always has `r` on (`xargsMain`,
+    after the `fix:` for the empty-input panic), which is what `C20_empty_ok` uses. -/
+theorem C20_without_r_empty_input_runs_once :
+    ¬ (∀ (cfg : Config) (init : LState) (script : List Outcome) (lines : List (List UInt8)),
+        cfg.lim.n = some 1 → cfg.lim.l = none →
+        (∀ l ∈ lines, fitsB cfg.lim init [⟨l, .hard⟩] = true) →
+        (∀ o ∈ script, o.isFatal = false) →
+        (processInput cfg init false ⟨init, []⟩ false false [] script
+            (lines.map (fun l => (⟨l, .hard⟩ : Arg)))).batches
+          = lines.map (fun l => [(⟨l, .hard⟩ : Arg)])) := by
+  intro h
+  have h' := h ⟨⟨some 1, none, none, 1000, 8, 131072⟩, false, false, none⟩ LState.zero [] []
+    rfl rfl (by simp) (by simp)
+  revert h'
+  decide
+
+/-- Replace mode (`-n 1`, no `-L`, `-r` implied): one command per input line, in order, each with
+    exactly that line as its only appended argument — blanks inside a line do not split it
+    (lines are whole arguments here) — as long as no child outcome is fatal.
+    `hr`: `-r` is in force (as it always is in replace mode, see `xargsMain`) or there is at
+    least one line. -/
+theorem C20_one_run_per_line (cfg : Config) (init : LState) (script : List Outcome)
+    (lines : List (List UInt8))
+    (hn : cfg.lim.n = some 1) (hl : cfg.lim.l = none)
+    (hr : cfg.r = true ∨ lines ≠ [])
+    (hfit : ∀ l ∈ lines, fitsB cfg.lim init [⟨l, .hard⟩] = true)
+    (hnf : ∀ o ∈ script, o.isFatal = false) :
+    (processInput cfg init false ⟨init, []⟩ false false [] script
+        (lines.map (fun l => (⟨l, .hard⟩ : Arg)))).batches
+      = lines.map (fun l => [(⟨l, .hard⟩ : Arg)]) :=
+  have _ := hl
+  processInput_one_per_line cfg init script lines hn hr hfit hnf
+
+/-- The argv of a replace-mode command: the program, then every initial argument with R replaced
+    by the whole line; nothing is appended. -/
+theorem C20_argv (prog : List UInt8) (initial : List (List UInt8)) (R line : List UInt8) (k : Kind) :
+    argvOf (prog :: initial) (some R) [⟨line, k⟩] = prog :: initial.map (replaceIn R line) := rfl
+
+/-- An initial argument without R is passed unchanged. -/
+theorem C20_replace_absent (pat rep s : List UInt8) (hp : pat ≠ []) (h : ¬ occursIn pat s) :
+    replaceIn pat rep s = s :=
+  have _ := hp
+  replaceAll_absent pat rep _ s h
+
+/-- Every occurrence is replaced, left to right, and the inserted line is not rescanned
+    (a line containing R itself is inserted verbatim): the first occurrence of `pat` is
+    replaced by `rep` and replacement continues after it. -/
+theorem C20_replace_first (pat rep pre post : List UInt8) (hp : pat ≠ [])
+    (h : ¬ occursIn pat (pre ++ pat.dropLast)) :
+    replaceIn pat rep (pre ++ pat ++ post) = pre ++ rep ++ replaceIn pat rep post :=
+  replaceAll_first pat rep post hp pre _ (Nat.le_succ _) h
+
+/-- Empty input in replace mode runs nothing and is not an error. -/
+theorem C20_empty (opts : List Opt) (cmd : List (List UInt8)) (script : List Outcome) (sys : Nat)
+    (hrep : (normalize opts).replace.isSome = true) :
+    xargsMain opts cmd [] script sys = ⟨0, []⟩ ∨ xargsMain opts cmd [] script sys = ⟨1, []⟩ := by
+  obtain ⟨d, hd⟩ := normalize_delim_of_replace opts hrep
+  unfold xargsMain
+  split
+  · exact Or.inr rfl
+  · split
+    · exact Or.inr rfl
+    · simp only []
+      split
+      · exact Or.inr rfl
+      · left
+        simp [hd, readInput, bdAll, bdFrom, processInput, hrep]
+
+/-- …and it is status 0 whenever the options are acceptable and the command itself fits. -/
+theorem C20_empty_ok (opts : List Opt) (cmd : List (List UInt8)) (script : List Outcome) (sys : Nat)
+    (hrep : (normalize opts).replace.isSome = true)
+    (hdup : dupOpts opts = false)
+    (hpos : opts.any (fun | .n 0 => true | .l 0 => true | .s 0 => true | _ => false) = false)
+    (hfit : (initState ⟨(normalize opts).n, (normalize opts).l,
+               lastVal opts (fun | .s v => some v | _ => none), sys, 8, 131072⟩ LState.zero cmd).isSome = true) :
+    xargsMain opts cmd [] script sys = ⟨0, []⟩ := by
+  obtain ⟨d, hd⟩ := normalize_delim_of_replace opts hrep
+  unfold xargsMain
+  split
+  · rename_i h
+    rw [hdup] at h
+    exact absurd h (by simp)
+  · split
+    · rename_i h
+      exact absurd (hpos.symm.trans h) (by simp)
+    · simp only []
+      split
+      · rename_i hnone
+        obtain ⟨init, hinit⟩ := Option.isSome_iff_exists.mp hfit
+        exact absurd (hnone.symm.trans hinit) (by simp)
+      · simp [hd, readInput, bdAll, bdFrom, processInput, hrep]
+
+/-- Mode selection, replace last: if a replace option (-I, -i, --replace) is given after the last
+    -n and after the last -L, the run is in replace mode (one argument per command, no line limit). -/
+theorem C20_mode_replace_last (opts : List Opt) (i : Nat)
+    (hi : lastIndex opts Opt.isRepl = some i)
+    (hn : ∀ j, lastIndex opts Opt.isN = some j → j < i)
+    (hl : ∀ j, lastIndex opts Opt.isL = some j → j < i) :
+    (normalize opts).replace.isSome = true ∧ (normalize opts).n = some 1 ∧ (normalize opts).l = none := by
+  rw [normalize_n, normalize_l, normalize_replace, selOf, hi]
+  refine sel_replace_last _ _ _ _ _ i ?_ hn hl
+  rw [Ne, ← lastIndex_R_none, hi]
+  simp
+
+/-- Mode selection, -L last: replace mode is off and only the line limit is in force. -/
+theorem C20_mode_lines_last (opts : List Opt) (i : Nat)
+    (hi : lastIndex opts Opt.isL = some i)
+    (hn : ∀ j, lastIndex opts Opt.isN = some j → j < i)
+    (hr : ∀ j, lastIndex opts Opt.isRepl = some j → j < i) :
+    (normalize opts).replace = none ∧ (normalize opts).n = none ∧
+      (normalize opts).l = lastVal opts (fun | .l v => some v | _ => none) := by
+  rw [normalize_n, normalize_l, normalize_replace, selOf, hi]
+  refine sel_lines_last _ _ _ _ _ i ?_ hn hr
+  rw [Ne, ← lastIndex_L_none, hi]
+  simp
+
+/-- Mode selection, -n last with a real conflict (a -L is present, or the value is not 1):
+    replace mode is off and only the argument limit is in force. -/
+theorem C20_mode_args_last (opts : List Opt) (i v : Nat)
+    (hi : lastIndex opts Opt.isN = some i)
+    (hv : lastVal opts (fun | .n v => some v | _ => none) = some v)
+    (hl : ∀ j, lastIndex opts Opt.isL = some j → j < i)
+    (hr : ∀ j, lastIndex opts Opt.isRepl = some j → j < i)
+    (hconf : v ≠ 1 ∨ (lastIndex opts Opt.isL).isSome = true ∨ (lastIndex opts Opt.isRepl) = none) :
+    (normalize opts).replace = none ∧ (normalize opts).n = some v ∧ (normalize opts).l = none := by
+  have hv' : lastVal opts nProj = some v := hv
+  rw [normalize_n, normalize_l, normalize_replace, selOf, hi, hv']
+  exact sel_args_last _ _ _ _ i v (lastIndex_L_none opts) (lastIndex_R_none opts) hl hr hconf
+
+/-- -I together with -n 1 (and no -L) is not a conflict, in either order: replace mode. -/
+theorem C20_mode_replace_with_n1 (opts : List Opt)
+    (hr : (lastIndex opts Opt.isRepl).isSome = true)
+    (hn : lastVal opts (fun | .n v => some v | _ => none) = some 1)
+    (hl : lastIndex opts Opt.isL = none) :
+    (normalize opts).replace.isSome = true ∧ (normalize opts).n = some 1 ∧ (normalize opts).l = none := by
+  have hn' : lastVal opts nProj = some 1 := hn
+  have hl' : lastVal opts lProj = none := (lastIndex_L_none opts).mp hl
+  rw [normalize_n, normalize_l, normalize_replace, selOf, hn', hl']
+  refine sel_replace_with_n1 _ _ _ _ ?_
+  rw [Ne, ← lastIndex_R_none]
+  intro hc
+  rw [hc] at hr
+  simp at hr
+
+/-! ### Concrete instances -/
+
+/-- `-I {}` with `echo a{}b{}` on the two lines `p q` and `{}`: blanks stay inside the
+    argument, both occurrences are replaced, an inserted `{}` is not rescanned. -/
+example :
+    xargsMain [.replI [123, 125]] [[101], [97, 123, 125, 98, 123, 125]]
+      [112, 32, 113, 10, 123, 125, 10] [] 100000
+    = ⟨0, [[[101], [97, 112, 32, 113, 98, 112, 32, 113]],
+           [[101], [97, 123, 125, 98, 123, 125]]]⟩ := by decide
+
+/-- overlapping candidates: left to right, non-overlapping (`aa` in `aaa` once) -/
+example : replaceIn [97, 97] [120] [97, 97, 97, 98, 97, 97] = [120, 97, 98, 120] := by decide
+
+/-- the last of -L, -I, -n wins -/
+example : (normalize [.l 2, .n 3, .replI [95]]).replace = some [95] ∧
+    (normalize [.l 2, .n 3, .replI [95]]).n = some 1 ∧
+    (normalize [.l 2, .n 3, .replI [95]]).l = none := by decide
+
+example : (normalize [.replI [95], .n 3, .l 2]) = ⟨none, some 2, none, none⟩ := by decide
+
+example : (normalize [.replI [95], .l 2, .n 1]) = ⟨some 1, none, none, none⟩ := by decide
+
+/-- `-n 1` after `-I` (no `-L`) keeps replace mode -/
+example : (normalize [.repl none, .n 1]) = ⟨some 1, none, some [123, 125], some 10⟩ := by decide
+
+/-- empty input, `-i`: nothing runs, status 0 -/
+example : xargsMain [.repl none] [[101], [123, 125]] [] [.exit 1] 100000 = ⟨0, []⟩ := by decide
+
+/-- a failing child does not stop the run; status 123 -/
+example :
+    xargsMain [.replI [37]] [[101], [37]] [49, 10, 50, 10] [.exit 1] 100000
+    = ⟨123, [[[101], [49]], [[101], [50]]]⟩ := by decide
+
 end FuModel.Xargs
